@@ -935,6 +935,15 @@ func indexDischarged(fn *ssa.Function, blk *ssa.BasicBlock, base, index ssa.Valu
 			}
 		}
 	}
+	// 7. the pop of a bookkeeping object (s.open = s.open[:len(s.open)-1]): every caller has
+	// pushed onto the same object before, in the same function, and pops once
+	if kind == "slice" && isLenMinusOne(index, base) && idxWorld != nil && len(fn.Params) == 1 {
+		if u, ok := base.(*ssa.UnOp); ok {
+			if fa, ok := u.X.(*ssa.FieldAddr); ok && fa.X == ssa.Value(fn.Params[0]) && popBalancedAtCallers(idxWorld, fn, fa.Field) {
+				return true
+			}
+		}
+	}
 	// 6. sub-match k of a regular expression with a constant pattern: a match that is not nil has
 	// one entry for the whole match and one per capture group
 	if k, ok := index.(*ssa.Const); ok && k.Value != nil && kind == "index" && k.Value.Kind() == constant.Int {
@@ -1569,6 +1578,97 @@ func countdownLoop(hdr *ssa.BasicBlock) bool {
 		}
 	}
 	return true
+}
+
+// popBalancedAtCallers: pop is a method that cuts the last element off the list field fld of
+// its receiver. Every call of it (it is never used as a value) lies in a function that calls,
+// on the same receiver expression and in a block that dominates the pop, a method that appends
+// to the same field, and that function pops that receiver only once.
+func popBalancedAtCallers(w *World, pop *ssa.Function, fld int) bool {
+	isPush := func(m *ssa.Function) bool {
+		if m == nil || len(m.Blocks) == 0 || len(m.Params) < 1 || m.Signature.Recv() == nil || !types.Identical(m.Params[0].Type(), pop.Params[0].Type()) {
+			return false
+		}
+		for _, b := range m.Blocks {
+			for _, ins := range b.Instrs {
+				st, ok := ins.(*ssa.Store)
+				if !ok {
+					continue
+				}
+				fa, ok := st.Addr.(*ssa.FieldAddr)
+				if !ok || fa.X != ssa.Value(m.Params[0]) || fa.Field != fld {
+					continue
+				}
+				if c, ok := st.Val.(*ssa.Call); ok {
+					if bi, ok := c.Call.Value.(*ssa.Builtin); ok && bi.Name() == "append" {
+						return true
+					}
+				}
+			}
+		}
+		return false
+	}
+	sameRecv := func(a, b ssa.Value) bool {
+		if a == b {
+			return true
+		}
+		ua, ok1 := a.(*ssa.UnOp)
+		ub, ok2 := b.(*ssa.UnOp)
+		if !ok1 || !ok2 {
+			return false
+		}
+		fa, ok1 := ua.X.(*ssa.FieldAddr)
+		fb, ok2 := ub.X.(*ssa.FieldAddr)
+		return ok1 && ok2 && fa.X == fb.X && fa.Field == fb.Field
+	}
+	n := 0
+	for _, role := range libRoles {
+		for _, g := range w.Funcs(role) {
+			var pops, pushes []*ssa.Call
+			for _, b := range g.Blocks {
+				for _, ins := range b.Instrs {
+					for _, op := range ins.Operands(nil) {
+						if op != nil && *op == ssa.Value(pop) {
+							if c, ok := ins.(*ssa.Call); !ok || c.Call.Value != ssa.Value(pop) {
+								return false
+							}
+						}
+					}
+					c, ok := ins.(*ssa.Call)
+					if !ok {
+						continue
+					}
+					if c.Call.StaticCallee() == pop {
+						pops = append(pops, c)
+					} else if isPush(c.Call.StaticCallee()) {
+						pushes = append(pushes, c)
+					}
+				}
+			}
+			for _, pc := range pops {
+				n++
+				same := 0
+				for _, o := range pops {
+					if sameRecv(o.Call.Args[0], pc.Call.Args[0]) {
+						same++
+					}
+				}
+				if same != 1 {
+					return false
+				}
+				ok := false
+				for _, u := range pushes {
+					if sameRecv(u.Call.Args[0], pc.Call.Args[0]) && (u.Block().Dominates(pc.Block()) && (u.Block() != pc.Block() || instrIndex(u) < instrIndex(pc))) {
+						ok = true
+					}
+				}
+				if !ok {
+					return false
+				}
+			}
+		}
+	}
+	return n > 0
 }
 
 // regexPatternOf: the constant pattern of a compiled regular expression: compiled on the
@@ -2841,6 +2941,11 @@ func dominatedByMembershipExit(c *ssa.Call) bool {
 				if n := calleeName(x); (strings.HasPrefix(n, "slices.Contains") || strings.HasPrefix(n, "slices.Index")) && len(x.Call.Args) == 2 && passes(x.Call.Args[1]) {
 					member = true
 				}
+				// a method of a bookkeeping object that answers whether its parameter is in a list or
+				// set the object keeps (state.isOpen(path))
+				if k := membershipParam(x.Call.StaticCallee()); k >= 0 && k < len(x.Call.Args) && passes(x.Call.Args[k]) {
+					member = true
+				}
 			case *ssa.UnOp:
 				walk(x.X, d+1)
 			case *ssa.BinOp:
@@ -2861,6 +2966,40 @@ func dominatedByMembershipExit(c *ssa.Call) bool {
 		}
 	}
 	return false
+}
+
+// membershipParam: fn is a one-block function that returns whether one of its parameters is
+// contained in a list or map read from another parameter (or a field of it); the index of the
+// parameter that is looked for, or -1.
+func membershipParam(fn *ssa.Function) int {
+	if fn == nil || len(fn.Blocks) != 1 || fn.Signature.Results().Len() != 1 || !isBool(fn.Signature.Results().At(0).Type()) {
+		return -1
+	}
+	pidx := func(v ssa.Value) int {
+		for i, p := range fn.Params {
+			if ssa.Value(p) == v {
+				return i
+			}
+		}
+		return -1
+	}
+	for _, ins := range fn.Blocks[0].Instrs {
+		switch x := ins.(type) {
+		case *ssa.Call:
+			if n := calleeName(x); (strings.HasPrefix(n, "slices.Contains") || strings.HasPrefix(n, "slices.Index")) && len(x.Call.Args) == 2 {
+				if k := pidx(x.Call.Args[1]); k >= 0 {
+					return k
+				}
+			}
+		case *ssa.Lookup:
+			if _, isMap := x.X.Type().Underlying().(*types.Map); isMap {
+				if k := pidx(x.Index); k >= 0 {
+					return k
+				}
+			}
+		}
+	}
+	return -1
 }
 
 func leadsToReturn(b *ssa.BasicBlock) bool {
